@@ -72,7 +72,8 @@ class ThreadRec:
 
 
 class Scheduler:
-    def __init__(self, policy=None, site_info=False, max_steps=200000):
+    def __init__(self, policy=None, site_info=False, max_steps=200000, max_threads=300):
+        self.max_threads = max_threads
         self.now = 0.0
         self.base_time = 1_700_000_000.0
         self.threads = []           # ThreadRec in creation order
@@ -92,6 +93,10 @@ class Scheduler:
 
     # ------------------------------------------------------------------ registration
     def register(self, vthread, base_name):
+        if len(self.threads) >= self.max_threads:
+            # like the OS refusing a new thread; keeps a runaway (e.g. a mutant that arms timers
+            # exponentially) from exhausting the machine's thread table
+            raise RuntimeError("can't start new thread (vsched limit %d)" % self.max_threads)
         n = self._name_ctr.get(base_name, 0)
         self._name_ctr[base_name] = n + 1
         name = '%s#%d' % (base_name, n)
